@@ -177,6 +177,9 @@ fn mode_words(ctx: &Arc<Ctx>) {
     let lmax: usize = ctx.args.extra.get("depth").map(|s| s.parse().unwrap()).unwrap_or(if ctx.args.thorough() { 5 } else { 4 });
     let mut t = Tally { words: 0, calls: 0, accepted: 0, valid_ref: 0, kinds: Default::default() };
     let mut global: u64 = 0;
+    if ctx.args.shard == 0 {
+        large_models(ctx);
+    }
     for (mi, model) in news().iter().enumerate() {
         for len in 0..=lmax {
             let total = (alpha.len() as u64).pow(len as u32);
@@ -202,6 +205,48 @@ fn mode_words(ctx: &Arc<Ctx>) {
         }
     }
     flush(ctx, &t, lmax as u64, "words");
+}
+
+/// Beyond the small scope: models with many parameters (valid, and with exactly one unused parameter at
+/// positions around 64 and 128), built through the real builder.
+fn large_models(ctx: &Ctx) {
+    use nalgebra::DVector;
+    use varpro::model::builder::error::ModelBuildError;
+    use varpro::model::builder::SeparableModelBuilder;
+    for p in [31usize, 32, 33, 63, 64, 65, 66, 100, 127, 128, 129, 200] {
+        let names: Vec<String> = (0..p).map(|k| format!("p{}", k)).collect();
+        let mut unused_opts: Vec<Option<usize>> = vec![None];
+        for k in [0usize, 1, 31, 32, 33, 62, 63, 64, 65, 127, 128, p - 1] {
+            if k < p && !unused_opts.contains(&Some(k)) {
+                unused_opts.push(Some(k));
+            }
+        }
+        for unused in unused_opts {
+            let mut b = SeparableModelBuilder::<f64>::new(&names);
+            for k in 0..p {
+                if Some(k) == unused {
+                    continue;
+                }
+                // alternate arity 1 and arity 2 functions (the second parameter is the next used one)
+                b = b.function([names[k].clone()], |x: &DVector<f64>, a: f64| x.map(|v| v * a)).partial_deriv(names[k].clone(), |x: &DVector<f64>, _a: f64| x.clone());
+            }
+            let r = guarded(|| b.independent_variable(DVector::from_vec(vec![1.0, 2.0])).initial_parameters(vec![1.0; p]).build());
+            ctx.with(|s| {
+                s.inc("large_models");
+                s.inc("states");
+                s.add("transitions", 2 * p as u64 + 4);
+            });
+            let case = json!({"mode": "large-model", "parameters": p, "unused_parameter": unused});
+            match (r, unused) {
+                (Err(m), _) => ctx.with(|s| s.violate("C15", "panic:large-model", case, format!("build() panicked for a model with {} parameters: {}", p, m))),
+                (Ok(Ok(_)), None) => {}
+                (Ok(Err(e)), None) => ctx.with(|s| s.violate("C15", "rejected-valid", case, format!("valid model with {} parameters rejected: {:?}", p, e))),
+                (Ok(Ok(_)), Some(k)) => ctx.with(|s| s.violate("C15", "accepted-invalid", case, format!("model with {} parameters accepted although parameter p{} is used by no function", p, k))),
+                (Ok(Err(ModelBuildError::UnusedParameter { parameter })), Some(k)) if parameter == names[k] => {}
+                (Ok(Err(e)), Some(k)) => ctx.with(|s| s.violate("C15", "wrong-kind:large-model", case, format!("parameter p{} is unused but build() returned {:?}", k, e))),
+            }
+        }
+    }
 }
 
 fn flush(ctx: &Ctx, t: &Tally, bound: u64, mode: &str) {
@@ -911,7 +956,66 @@ mod misuse {
     }
 }
 
+/// If the builder accepts a specification it should reject (C15's subject), the resulting object is a builder-made
+/// model and C17 applies to it: every operation returns a value or an error, successful evaluations are N x M and
+/// params() has one entry per model parameter.
+fn accepted_invalid_models(ctx: &Ctx) {
+    use nalgebra::DVector as V;
+    use varpro::model::builder::SeparableModelBuilder as B;
+    use varpro::prelude::SeparableNonlinearModel;
+    let x = || V::from_vec(vec![1.0, 2.0, 3.0, 4.0]);
+    let f1 = |x: &V<f64>, a: f64| x.map(|v| v * a);
+    let f2 = |x: &V<f64>, a: f64, b: f64| x.map(|v| v * a + b);
+    let f3 = |x: &V<f64>, a: f64, b: f64, c: f64| x.map(|v| v * a + b * c);
+    let specs: Vec<(&str, B<f64>, usize, usize)> = vec![
+        ("initial guess too short directly after a derivative", B::new(["a", "b"]).function(["a"], f1).partial_deriv("a", f1).function(["b"], f1).partial_deriv("b", f1).initial_parameters(vec![1.0]).independent_variable(x()), 2, 2),
+        ("empty initial guess directly after a derivative", B::new(["a"]).function(["a"], f1).partial_deriv("a", f1).initial_parameters(vec![]).independent_variable(x()), 1, 1),
+        ("initial guess too long directly after a function's derivative", B::new(["a"]).function(["a"], f1).partial_deriv("a", f1).initial_parameters(vec![1.0, 2.0, 3.0]).independent_variable(x()), 1, 1),
+        ("derivative with fewer arguments than its function", B::new(["a", "b"]).function(["a", "b"], f2).partial_deriv("a", f1).partial_deriv("b", f2).independent_variable(x()).initial_parameters(vec![1.0, 2.0]), 2, 1),
+        ("derivative with more arguments than its function", B::new(["a", "b"]).function(["a", "b"], f2).partial_deriv("a", f3).partial_deriv("b", f2).independent_variable(x()).initial_parameters(vec![1.0, 2.0]), 2, 1),
+        ("function with more names than arguments", B::new(["a", "b"]).function(["a", "b"], f1).partial_deriv("a", f1).partial_deriv("b", f1).independent_variable(x()).initial_parameters(vec![1.0, 2.0]), 2, 1),
+    ];
+    for (name, b, p, m) in specs {
+        let case = json!({"mode": "misuse", "accepted_invalid_specification": name});
+        ctx.with(|s| s.inc("invalid_specifications_tried"));
+        let model = match guarded(|| b.build()) {
+            Ok(Ok(mo)) => mo,
+            _ => continue,
+        };
+        let r = guarded(|| {
+            let mut problems = vec![];
+            if model.params().len() != p {
+                problems.push(format!("params() has {} entries for a model with {} parameters", model.params().len(), p));
+            }
+            if let Ok(e) = model.eval() {
+                if e.nrows() != 4 || e.ncols() != m {
+                    problems.push(format!("eval() returned a {}x{} matrix", e.nrows(), e.ncols()));
+                }
+                if model.params().len() != p {
+                    problems.push("eval() succeeded although the stored parameter vector has the wrong length".into());
+                }
+            }
+            for k in 0..p {
+                if let Ok(e) = model.eval_partial_deriv(k) {
+                    if e.nrows() != 4 || e.ncols() != m {
+                        problems.push(format!("eval_partial_deriv({}) returned a {}x{} matrix", k, e.nrows(), e.ncols()));
+                    }
+                }
+            }
+            problems
+        });
+        match r {
+            Err(msg) => ctx.with(|s| s.violate("C17", "panic:accepted-invalid-model", case, format!("the builder accepted this specification and the model panicked: {}", msg))),
+            Ok(pr) if !pr.is_empty() => ctx.with(|s| s.violate("C17", "mis-shaped:accepted-invalid-model", case, pr.join("; "))),
+            Ok(_) => {}
+        }
+    }
+}
+
 pub fn mode_misuse(ctx: &Arc<Ctx>) {
+    if ctx.args.shard == 0 {
+        accepted_invalid_models(ctx);
+    }
     let depth: usize = ctx.args.extra.get("depth").map(|s| s.parse().unwrap()).unwrap_or(if ctx.args.thorough() { 4 } else { 3 });
     let ops = misuse::ops();
     let envs = misuse::environments();
